@@ -753,7 +753,8 @@ void TypeChecker::visitEdge(edge_t& edge)
             } else if (edge.sync.changes_any_variable()) {
                 handleError(edge.sync, "$Synchronisation_must_be_side-effect_free");
             } else {
-                bool hasClockGuard = !edge.guard.empty() && !is_integral(edge.guard);
+                // a guard that failed its own type check has no type; it has been reported and is not a clock guard
+                bool hasClockGuard = !edge.guard.empty() && !edge.guard.get_type().unknown() && !is_integral(edge.guard);
                 bool isUrgent = channel.is(URGENT);
                 bool receivesBroadcast = channel.is(BROADCAST) && edge.sync.get_sync() == SYNC_QUE;
 
